@@ -237,7 +237,9 @@ def Err.underline (e : Err) : Option Str :=
   | some (start, endO) =>
     if start = 0 then none else                              -- `start - 1`
     let offset := start - 1
-    let pre := (e.line.take offset).map fun c => if c = '\t' then '\t' else ' '
+    let shown := (e.line.take offset).map fun c => if c = '\t' then '\t' else ' '
+    -- `for _ in padded..offset { underline.push(' ') }`
+    let pre := shown ++ List.replicate (offset - shown.length) ' '
     match endO with
     | some en =>
       if en < start then none else                           -- `end - start`
